@@ -15,4 +15,6 @@ CONSTANTS
   NumTo = 999999
   RandTs = 100
   RandNum = 50
+  WireTo = 1100
+  WireBig = {999, 1000, 1001, 4095, 4096, 4097, 9999, 10000, 10001, 65535, 65536, 65537, 99999, 100000, 100001, 999999, 1000000, 1000001, 1048575, 1048576, 1048577, 9999999, 10000000, 10000001, 16777215, 16777216, 16777217}
 CHECK_DEADLOCK FALSE
